@@ -58,7 +58,7 @@ REAL_STUB = {
     "stub": ["event loop scheduling + clock (SimLoop)", "data callables / async iterables (gated, event-counting)"],
 }
 BUDGET = {"quick": 28, "thorough": 600}
-MODES = ["clean", "early-aclose", "cancel", "data-raises", "sync-api", "sync-api-data-raises"]
+MODES = ["clean", "early-aclose", "cancel", "data-raises", "sync-api", "sync-api-data-raises", "sync-api-early-close"]
 
 _setup_done = False
 
@@ -78,6 +78,8 @@ def setup() -> None:
 
 
 def _kind(co_name: str) -> str:
+    if co_name.startswith("engine:"):
+        return "engine"
     if co_name == "root":
         return "root"
     if co_name.startswith("block_"):
@@ -97,7 +99,9 @@ def run(tape: Tape) -> Outcome:
     lc = bool(tape.draw(2))
     noise = tape.draw(3)
     size = 2 + tape.draw(4)
-    P = Gen(tape, is_async=True, loopcontrols=lc, size=size).generate()
+    envcls = (0, 0, 0, 0, 0, 1, 1, 2)[tape.draw(8, "m")]
+    out.count("env_class_" + ("Environment", "NativeEnvironment", "SandboxedEnvironment")[envcls])
+    P = Gen(tape, is_async=True, loopcontrols=lc, size=size, native=envcls == 1).generate()
     entry = P.entry_points[tape.draw(len(P.entry_points))]
     mode = tape.draw(len(MODES), "f")
     api = tape.draw(2, "f")
@@ -110,8 +114,11 @@ def run(tape: Tape) -> Outcome:
         fault_exc = PrivateFault("injected") if exck == 0 else PrivateAbort("injected")
     events = Events(fault_at=k if fault_exc is not None else 0, exc=fault_exc)
     data = make_async_data(tape, events)
-    cfg_key = ("c36", ae, lc)
-    env = jinja2.Environment(
+    cfg_key = ("c36", ae, lc, envcls)
+    from jinja2.nativetypes import NativeEnvironment
+    from jinja2.sandbox import SandboxedEnvironment
+
+    env = (jinja2.Environment, NativeEnvironment, SandboxedEnvironment)[envcls](
         loader=jinja2.DictLoader(P.templates), enable_async=True, autoescape=AE_MODES[ae],
         extensions=["jinja2.ext.loopcontrols"] if lc else [], bytecode_cache=CodeMemo(cfg_key),
     )
@@ -137,14 +144,31 @@ def run(tape: Tape) -> Outcome:
     try:
         with warnings.catch_warnings(record=True) as wlist:
             warnings.simplefilter("always")
-            if mode in (4, 5):
+            if mode in (4, 5, 6):
                 # sync API of an async environment: jinja calls asyncio.run itself
                 try:
                     tmpl = env.get_template(entry)
-                    if api == 0:
+                    if mode == 6:
+                        # the consumer of the SYNC generator stops after k chunks and closes it
+                        it = tmpl.generate(**data) if api == 0 else iter(tmpl.stream(**data))
+                        got = []
+                        try:
+                            for c in it:
+                                if len(got) >= k:
+                                    info["closed_early"] = True
+                                    break
+                                got.append(str(c))
+                                info["chunks"] = len(got)
+                        finally:
+                            close = getattr(it, "close", None)
+                            if close is not None:
+                                close()
+                        it = None
+                        res = ("ok", "".join(got))
+                    elif api == 0:
                         res = ("ok", tmpl.render(**data))
                     else:
-                        res = ("ok", "".join(tmpl.generate(**data)))
+                        res = ("ok", "".join(map(str, tmpl.generate(**data))))
                 except A.SimStall as e:
                     stall = str(e)
                 except BaseException as e:  # noqa: BLE001
@@ -175,7 +199,7 @@ def run(tape: Tape) -> Outcome:
                                 info["closed_early"] = True
                         finally:
                             await agen.aclose()
-                        return "".join(chunks)
+                        return "".join(map(str, chunks))
                     finally:
                         info["open_at_finish"] = loop.open_template_generators()
 
@@ -223,7 +247,7 @@ def run(tape: Tape) -> Outcome:
             res_key = (res[0], exc_key(exc_obj)) if exc_obj is not None else res
             same_obj = exc_obj is fault_exc if (exc_obj is not None and fault_exc is not None) else None
             if exc_obj is not None:
-                exc_obj.__traceback__ = None
+                exc_obj.with_traceback(None)  # C-level: works for exception classes that forbid attribute assignment
             res = res_key
             exc_obj = None
             gc.collect()
@@ -237,7 +261,7 @@ def run(tape: Tape) -> Outcome:
 
     started = sum(len(lp.agens) for lp in loops)
     fired = (
-        (mode == 1 and info["closed_early"]) or (mode == 2 and info["cancel_sent"])
+        (mode in (1, 6) and info["closed_early"]) or (mode == 2 and info["cancel_sent"])
         or (mode in (3, 5) and events.fired)
     )
     steps = sum(lp.steps for lp in loops)
@@ -274,8 +298,15 @@ def run(tape: Tape) -> Outcome:
         return out
     open_fin = info.get("open_at_finish") or []
     for lp in loops:
-        if mode in (4, 5):
-            open_fin = open_fin + getattr(lp, "open_at_shutdown", [])
+        if mode in (4, 5, 6):
+            open_fin = open_fin + getattr(lp, "open_at_shutdown", []) + getattr(lp, "open_at_close", [])
+            if not lp.is_closed():
+                # a loop the engine created and never closed: nobody will ever close what is open in it
+                open_fin = open_fin + lp.open_template_generators()
+                try:
+                    A.close_loop(lp)
+                except Exception:
+                    pass
     if open_fin:
         kinds = sorted({_kind(n) for n in open_fin})
         out.violate(("unclosed-at-task-finish", MODES[mode], *kinds), generators=open_fin)
@@ -328,6 +359,7 @@ def unit(index: int, seed: int, tier: str):
         for exck in (0, 1):
             plans += [[3, api, k, exck] for k in range(1, st["data_events"] + 1)]
         plans.append([4, api, 0, 0])
+        plans += [[6, api, k, 0] for k in range(0, stats[1]["chunks"] + 1)]
         plans += [[5, api, k, exck] for exck in (0, 1) for k in range(1, st["data_events"] + 1)]
     limit = 40 if tier == "quick" else 2000
     total_positions = len(plans)
